@@ -26,3 +26,18 @@ $(BIN)/num.%: $(HO)/num_main.o $(NUM_OBJS) $(B)/lib/%/libmasa.a
 $(BIN)/c20.%: $(HO)/c20_main.o $(NUM_OBJS) $(B)/lib/%/libmasa.a
 	@mkdir -p $(BIN)
 	$(CXX) -o $@ $(HO)/c20_main.o $(NUM_OBJS) $(B)/lib/$*/libmasa.a -lrapidcheck -lquadmath
+
+# ---- history engine (built against the exception-enabled library: misuse throws int instead of exit(1))
+$(GEN)/api_gen.hpp: $(REPO)/src/masa.h.in $(REPO)/src/cmasa.cpp /verif/tools/gen_api.py
+	@mkdir -p $(GEN)
+	python3 /verif/tools/gen_api.py $(REPO) $@.tmp && (cmp -s $@.tmp $@ || cp $@.tmp $@)
+$(GEN)/capspec_gen.cpp: /verif/spec/capabilities.json /verif/tools/gen_capspec.py
+	@mkdir -p $(GEN)
+	python3 /verif/tools/gen_capspec.py /verif/spec/capabilities.json $@
+$(HO)/hist_main.o $(HO)/capspec_gen.o: $(GEN)/api_gen.hpp
+$(HO)/capspec_gen.o: $(GEN)/capspec_gen.cpp $(EHDR) $(GEN)/masa.h
+	@mkdir -p $(HO)
+	$(CXX) $(CXXF) -c $< -o $@
+$(BIN)/hist.%: $(HO)/hist_main.o $(HO)/capspec_gen.o $(B)/lib/%/libmasa.a
+	@mkdir -p $(BIN)
+	$(CXX) -o $@ $(HO)/hist_main.o $(HO)/capspec_gen.o $(B)/lib/$*/libmasa.a -lrapidcheck
